@@ -7,6 +7,7 @@ pub mod model;
 pub mod seq;
 pub mod tape;
 pub mod violation;
+pub mod watch;
 
 // everything below drives fn_graph's streaming API (feature `async`, on by default)
 #[cfg(feature = "async_apis")]
